@@ -46,20 +46,26 @@ def r02a(ck, fb):
                     'result adjusts index_cursor / the index offset must size a file-offset delta too (never a log-index delta)')
     w = ck.main(LIM + 'write', 'R02a')
     if w:
-        src = Taint(w, place_src=field_place_src('data_cursor', 'file_index'))
-        wv = w.calls(r'protobuf_utils::write_varint64$')
+        wv = util.region_calls(fb, w, r'protobuf_utils::write_varint64$')
         ck.floor('R02a', 'write_varint64 in write()', len(wv), 1)
-        for s in wv:
+        for (b2, s) in wv:
+            src = Taint(b2, place_src=field_place_src('data_cursor', 'file_index'))
             ck.require(src.op_tainted(s.args[0]), 'R02a', 'write:varint<-file-offset', s.where(),
                        'the index entry written by write() is no longer a file offset delta', 'data_cursor - last.file_index')
-            bad = Taint(w, place_src=field_place_src('log_index', 'msg_count'))
+            bad = Taint(b2, place_src=field_place_src('log_index', 'msg_count'))
             ck.require(not bad.op_tainted(s.args[0]), 'R02a', 'write:varint-not-log-index', s.where(),
                        'the index entry written by write() mixes in a log index')
-        # index_cursor advances by the length of the written varint
-        t = Taint(w, call_src=lambda t: (t.get('f') or {}).get('d', '').endswith('write_varint64'))
-        adv = [s for (o, f, bb, s) in w.field_writes() if f == 'index_cursor']
-        ck.require(bool(adv) and all(any(t.op_tainted(x) for x in rv_operands(s['rv'])) for s in adv), 'R02a',
-                   'write:index_cursor+=len(varint)', w.where(), 'index_cursor is not advanced by the length of the written index entry')
+        # index_cursor advances by the length of the written varint (in whichever body of the region writes it)
+        okadv = False
+        for b2 in util.region(fb, w):
+            t = Taint(b2, call_src=lambda t: (t.get('f') or {}).get('d', '').endswith('write_varint64'))
+            adv = [st for (o, f, bb, st) in b2.field_writes() if f == 'index_cursor']
+            if adv and all(any(t.op_tainted(x) for x in rv_operands(st['rv'])) for st in adv):
+                okadv = True
+            elif adv:
+                okadv = False
+                break
+        ck.require(okadv, 'R02a', 'write:index_cursor+=len(varint)', w.where(), 'index_cursor is not advanced by the length of the written index entry')
     n = 0
     for name in (LIM + 'get_file_index_by_log_index', LIM + 'read_indexs'):
         b = ck.body(name, 'R02a')
